@@ -24,7 +24,7 @@ META = {
               "np.log -> Ackermannised with log(2) enclosed by mpmath intervals"],
     "assumptions": ["REAL mode", "intrinsic Cherenkov angle > 0, threshold / area / efficiency > 0, photon density >= 0", "detector above the decay point; emergence angle in [0, 90 deg)"],
 }
-LEDGER = {"quick": 260, "thorough": 500}
+LEDGER = {"quick": 325, "thorough": 500}
 
 
 def eas_run(N):
@@ -107,7 +107,7 @@ def eas_run(N):
         inputs = {"area": area, "qe": qe, "thr": thr}
         for i in idx:
             inputs.update({f"altDec{i}": z3.Real(f"altDec{i}"), f"rho{i}": z3.Real(f"rho{i}"), f"theta{i}": z3.Real(f"theta{i}")})
-        return harness.Out(claims=claims, inputs=inputs, info={"in_range": ids}, observe={"numPEs": numPEs, "thetaChEff": thEff} if thEff is not None else {"numPEs": numPEs})
+        return harness.Out(claims=claims, inputs=inputs, info={"in_range": ids}, observe={"numPEs": numPEs, "costhetaChEff": cosEff, "thetaChEff": thEff} if thEff is not None else {"numPEs": numPEs, "costhetaChEff": cosEff})
 
     return run
 
@@ -172,6 +172,75 @@ def scaling_run(K):
     return run
 
 
+_INDEP_HELPERS = ("theta_view", "theta_prop", "valid_arrays", "e0", "cherenkov_threshold_angle", "tracklen", "d_to_det", "cher_ang_sig_i", "cherenkov_area")
+_INDEP_ASSUMED = ("zsteps (compiled extension)", "grammage", "ozone_losses", "aerosol_model", "sphoton_yeild", "photon_sum")
+
+
+def _flat(x):
+    if isinstance(x, tuple):
+        out = []
+        for e in x:
+            out += _flat(e)
+        return out
+    if isinstance(x, SymArray):
+        return [SV.of(e) for e in x.a.reshape(-1)]
+    return [SV.of(x)]
+
+
+def indep_run(helper, K):
+    """The altitude-scaling job treats the numeric helpers of CphotAng.run as functions of their
+    arguments alone.  This job discharges that contract for the helpers the executor can run: the
+    REAL helper body, numeric primitives uninterpreted, on two objects that differ only in
+    detector_altitude (symbolic h vs the 525 km reference) and get identical symbolic arguments,
+    must return identical results (same lengths, same terms) on every path."""
+
+    def run(C):
+        C.opaque_math = True
+        sp, dg, cp = cm.load_cphot()
+        Cls = cp["CphotAng"]
+        h = z3.Real("det_alt")
+        C.assume(h > 20)  # as in the scaling job: a detector above every simulated decay
+
+        def mk(alt):
+            return Cls(alt)  # the real constructor (reference orbit, zmax, constants and tables from /repo's source)
+
+        oh, o5 = mk(SV(t=h)), mk(SV.of(_np.float32(525.0)))
+
+        def arr(n, k=K):
+            return symarr([f"{n}{i}" for i in range(k)])
+
+        zs = arr("z")
+        for i in range(K):
+            C.assume(zs.a[i].t >= 0, zs.a[i].t <= 65)  # contract of zsteps: mid-bin altitudes between the decay altitude (>= 0) and zMaxZ = 65 km
+        E = SV(t=z3.Real("Eshow"))
+        C.assume(E.t > 1)
+        sc = lambda n: SV(t=z3.Real(n))  # noqa
+        args = {
+            "theta_view": lambda: (sc("betaE"),),
+            "theta_prop": lambda: (zs.copy(), sc("sinThetView")),
+            "valid_arrays": lambda: (zs.copy(), arr("delgram"), arr("gramsum"), arr("gramz"), arr("ZonZ"), arr("ThetPrpA"), E),
+            "e0": lambda: ((K,), arr("s")),
+            "cherenkov_threshold_angle": lambda: (arr("AirN"),),
+            "tracklen": lambda: (arr("E0"), arr("eCthres"), arr("s")),
+            "d_to_det": lambda: (sc("ThetView"), arr("ThetPrpA"), zs.copy()),
+            "cher_ang_sig_i": lambda: (arr("taphotstep"), sc("taphotsum"), arr("thetaC"), sc("AveCangI")),
+            "cherenkov_area": lambda: (sc("AveCangI"), arr("DistStep"), 0),
+        }[helper]
+        rh = _flat(getattr(oh, helper)(*args()))
+        r5 = _flat(getattr(o5, helper)(*args()))
+        same = len(rh) == len(r5)
+        claims = {f"{helper}: result for detector altitude h has the same shape as for the 525 km reference": z3.BoolVal(same)}
+        if same:
+            claims[f"{helper}: result does not depend on the detector altitude"] = z3.And([a.term() == b.term() for a, b in zip(rh, r5)]) if rh else z3.BoolVal(True)
+        return harness.Out(claims=claims, inputs={"det_alt": h, **{f"z{i}": zs.a[i].t for i in range(K)}}, skip_defd=lambda tag, where: "numeric domain of the photon-yield helpers is C06 (not applicable); only independence of the detector altitude is claimed here")
+
+    return run
+
+
+def job_indep(helper, K, tier):
+    return harness.run_job(f"CphotAng.{helper}: independent of the detector altitude (K={K})", indep_run(helper, K), timeout_ms=30000, twin=False)
+
+
 def job_eas(N, tier):
     return harness.run_job(f"EAS.__call__(N={N})", eas_run(N), timeout_ms=60000 if tier == "quick" else 600000, second=(tier == "thorough"), watch=())
 
@@ -186,7 +255,8 @@ def job_scaling(K, tier):
 
 def jobs(tier, seed):
     return [("eas", "job_eas", {"N": 2 if tier == "quick" else 3, "tier": tier}), ("eas1", "job_eas", {"N": 1, "tier": tier}),
-            ("dist", "job_dist", {"tier": tier}), ("scal", "job_scaling", {"K": 3 if tier == "quick" else 4, "tier": tier})]
+            ("dist", "job_dist", {"tier": tier}), ("scal", "job_scaling", {"K": 3 if tier == "quick" else 4, "tier": tier})] + [
+        (f"indep_{hname}", "job_indep", {"helper": hname, "K": 2 if tier == "quick" else 3, "tier": tier}) for hname in _INDEP_HELPERS]
 
 
 def _real_eas(v, N):
@@ -219,7 +289,8 @@ def _real_eas(v, N):
 
     def prof(frame, event, arg):
         if event == "return" and frame.f_code.co_name == "__call__" and frame.f_code.co_filename.endswith("eas_optical/eas.py"):
-            cap["thetaChEff"] = np.array(frame.f_locals.get("thetaChEff"))
+            t = frame.f_locals.get("thetaChEff")
+            cap["thetaChEff"] = None if t is None else np.array(t)
 
     import sys
 
@@ -228,7 +299,8 @@ def _real_eas(v, N):
         pe, c = eas(z + 0.1, alt, z + 1, z, z, cloudf=None)
     finally:
         sys.setprofile(None)
-    return pe, cap["thetaChEff"], alt, rho, th, seen
+    seen["cos"] = np.array(c)
+    return pe, cap.get("thetaChEff"), alt, rho, th, seen
 
 
 def replay(v):
@@ -252,13 +324,17 @@ def replay(v):
                 tref = th[i] * max(1.0, np.sqrt(2 * np.log(ratio))) if ratio > 2 else th[i]
                 if "numPEs ==" in ob and abs(pe[i] - ref) > 1e-9 * abs(ref) + 1e-300:
                     bad = f"numPEs[{i}]={pe[i]} vs density*area*QE={ref}"
-                if ("effective angle" in ob or "ratio" in ob) and abs(theff[i] - tref) > 1e-6 * tref:
+                if ("effective angle" in ob or "ratio" in ob) and theff is not None and abs(theff[i] - tref) > 1e-6 * tref:
                     bad = f"effective angle[{i}]={theff[i]} vs reference {tref} (ratio {ratio})"
             else:
                 if "zero photo" in ob and pe[i] != 0:
                     bad = f"out-of-range event {i} has numPEs {pe[i]}"
-                if "1.5 deg" in ob and abs(theff[i] - 1.5) > 1e-6:
+                if "1.5 deg" in ob and theff is not None and abs(theff[i] - 1.5) > 1e-6:
                     bad = f"out-of-range event {i} has angle {theff[i]}"
+                if ("1.5 deg" in ob or "returned cosine" in ob) and abs(seen["cos"][i] - np.cos(np.radians(1.5))) > 1e-9:
+                    bad = f"out-of-range event {i}: returned costhetaChEff {seen['cos'][i]} is not cos(1.5 deg) = {np.cos(np.radians(1.5))}"
+            if "returned cosine" in ob and theff is not None and abs(seen["cos"][i] - np.cos(np.radians(theff[i]))) > 1e-9:
+                bad = f"event {i}: returned cosine {seen['cos'][i]} is not cos(radians({theff[i]}))"
         nin = int(((alt >= 0) & (alt <= 20)).sum())
         if ("simulated iff" in ob or "receives exactly" in ob) and seen.get("n", 0) != nin:
             bad = f"kernel saw {seen.get('n')} events, {nin} are in range (altDec={alt.tolist()})"
@@ -279,6 +355,17 @@ def replay(v):
             return {"reproduced": True, "key": "distance_to_detector differs from the chord formula", "detail": f"d={d} chord={ref} at {m}"}
     if job.startswith("CphotAng.run"):
         return _replay_scaling(m, ob)
+    if "independent of the detector altitude" in job:
+        # the helper's dependence on the altitude must show at the observable: the real float32 kernel at the
+        # model's altitude against the 525 km reference, for a few showers that develop high in the atmosphere
+        helper = job.split(":")[0]
+        for b, alt in ((0.2, 2.0), (35.0 * np.pi / 180, 8.0), (5.0 * np.pi / 180, 19.5), (20.0 * np.pi / 180, 15.0), (10.0 * np.pi / 180, 12.0)):
+            r = _replay_scaling(dict(m, beta=b, alt=alt), "angle density")
+            if r["reproduced"]:
+                r["key"] = f"{helper} depends on the detector altitude: " + r["key"]
+                r["detail"] += f" (emergence {b:.3f} rad, decay altitude {alt} km)"
+                return r
+        return {"reproduced": False, "key": None, "detail": "real kernel follows the scaling law at the model's altitude for the probe showers"}
     return {"reproduced": False, "key": None, "detail": "no reproduction"}
 
 
@@ -307,6 +394,9 @@ def _replay_scaling(m, ob):
     return {"reproduced": False, "key": None, "detail": "real kernel satisfies the relation"}
 
 
+VALIDATE_JOB = "EAS.__call__(N=2)"
+
+
 def validate(seed, tier):
     import numpy as np
 
@@ -323,8 +413,11 @@ def validate(seed, tier):
         return v
 
     def real(v):
-        pe, theff, *_ = _real_eas(v, N)
-        return {"numPEs": pe, "thetaChEff": theff}
+        pe, theff, *_r, seen = _real_eas(v, N)
+        out = {"numPEs": pe, "costhetaChEff": seen["cos"]}
+        if theff is not None:
+            out["thetaChEff"] = theff
+        return out
 
     return harness.validate(eas_run(N), sampler, real, 50, seed, rel=1e-7)
 
